@@ -150,6 +150,9 @@ def c10_jobs(tier):
         for f, r in combos:
             js.append(job("ZZ_C10_ErrPos", U, L=L, fmt=f, rot=r, w=1 if L >= 4 else 2))
     js.append(job("ZZ_C10_ErrPos", U, L=3, fmt=1, rot=2, w=3))
+    # a faulty line with arbitrary bytes behind the fault, through both renderings
+    for n in range(0, (4 if q else 6) + 1):
+        js.append(job("ZZ_C10_FaultyLine", U, n=n))
     return js
 
 
@@ -304,6 +307,7 @@ def c04_jobs(tier):
     js = [mut("ZZ_Mut_Start", 2, 0, 2, nd=3, resume=1), mut("ZZ_Mut_Stop", 3, 1, 0, sw=0, nd=2), mut("ZZ_Mut_Stop", 3, 2, 1, sw=1, nd=2),
           mut("ZZ_Mut_Track", 2, 1, 1), mut("ZZ_Mut_Create", 2, 0, 3),
           mut("ZZ_Mut_Pause", 2, 1, 1, ticks=2, extend=0), mut("ZZ_Mut_Pause", 2, 0, 2, ticks=1, extend=0),
+          mut("ZZ_Mut_Pause", 3, 0, 0, ticks=1, extend=1, nd=2),
           mut("ZZ_Mut_History", 2, 1, 1, steps=2, nd=2), mut("ZZ_Mut_History", 1, 0, 0, steps=3), job("ZZ_Mut_Layouts", C)]
     if not q:
         js += [mut("ZZ_Mut_Pause", 3, 2, 2, ticks=1, extend=1, tab=1), mut("ZZ_Mut_Pause", 2, 0, 1, ticks=3, extend=0),
@@ -366,7 +370,7 @@ def c13_jobs(tier):
     js += [job("ZZ_C13_Filter", S, n=n, e=1, mode=0) for n in ([1, 2] if q else [1, 2, 3])]
     js += [job("ZZ_C13_Filter", S, n=1, e=2, mode=1), job("ZZ_C13_Filter", S, n=2, e=1, mode=1)]
     for sel in range(13):
-        for frm, span in ([(2019, 4)] if q else [(0, 10), (1896, 10), (1996, 10), (9989, 10)]):
+        for frm, span in ([(2019, 4)] if q else [(0, 6), (1998, 6), (9993, 6)]):
             js.append(job("ZZ_C13_Shortcuts", U, **{"from": frm, "span": span, "sel": sel, "_split": 65536}))
     if not q:
         js += [job("ZZ_C13_Filter", S, n=1, e=1, mode=2), job("ZZ_C13_Filter", S, n=1, e=3, mode=1), job("ZZ_C13_Filter", S, n=2, e=2, mode=1)]
@@ -393,7 +397,8 @@ def c20_jobs(tier):
     if q:
         js.append(job("ZZ_C10_ErrPos", U, L=2, fmt=1, rot=1, w=1))
     # values with symbolic digits (times incl. 0:00 / 24:00 and day shifts, signed durations, should-total)
-    js += [job("ZZ_C20_Values", U, kind=0, pretty=0, small=1), job("ZZ_C20_Values", U, kind=1, pretty=1), job("ZZ_C20_Values", U, kind=2, pretty=0)]
+    js += [job("ZZ_C20_Values", U, kind=0, pretty=0, small=1), job("ZZ_C20_Values", U, kind=1, pretty=1), job("ZZ_C20_Values", U, kind=2, pretty=0),
+           job("ZZ_C20_Values", U, kind=3, pretty=0), job("ZZ_C20_Values", U, kind=3, pretty=1)]
     if not q:
         js += [job("ZZ_C20_Values", U, kind=0, pretty=1, small=0)]
     return js
@@ -480,8 +485,8 @@ CHECKS = {
     "C10": {
         "jobs": c10_jobs,
         "bounds": {
-            "quick": "every generated document of 1..4 lines with one injected rule violation (10 fault kinds at every reachable position), parsed serially and with 2-3 workers in every delivery order",
-            "thorough": "5-line documents, all line-ending x indentation combinations",
+            "quick": "every generated document of 1..4 lines with one injected rule violation (10 fault kinds at every reachable position), parsed serially and with 2-3 workers in every delivery order; terminal rendering compared byte for byte with a rendering built from the reported line / position / length, JSON rendering read back from the emitted text; a malformed entry line followed by 0-4 ARBITRARY bytes through both renderings",
+            "thorough": "5-line documents, all line-ending x indentation combinations; 6 arbitrary bytes",
         },
         "outside": "longer documents; several independent faults per document (only ordering and per-error validity are asserted for follow-up errors)",
         "stubs": [MODELS["regexp"], MODELS["fmt"], MODELS["utf8"], MODELS["builder"], MODELS["json"]],
@@ -506,7 +511,7 @@ CHECKS = {
     },
     "C04": {
         "jobs": c04_jobs, "asserts": A_C04,
-        "bounds": {"quick": "one inductive step of every command from every conforming 2-3 line file (the file is the only state and is re-parsed by every command; start with --summary, --resume and --resume-nth 1 / -2), pause for 1 tick with symbolic minutes and 3 ticks with increments {0,1,59,61}, histories of 2-3 commands (track/start/stop) where each output feeds the next",
+        "bounds": {"quick": "one inductive step of every command from every conforming 2-3 line file (the file is the only state and is re-parsed by every command; start with --summary, --resume and --resume-nth 1 / -2), pause for 1 tick with symbolic minutes and 3 ticks with increments {0,1,59,61}, pause --extend on every 3-line file (pause entry before or after the open range), histories of 2-3 commands (track/start/stop) where each output feeds the next",
                    "thorough": "histories of 3-4 commands, pause --extend, 3-line files for track/create"},
         "outside": "longer histories (covered by the inductive step only), --resume on switch, switch --summary variants",
         "stubs": MUT_STUBS, "assumptions": MUT_ASSUME + ["the abstract model is the generator's denotation of the file (records as lists of (kind, values, summary)), advanced per command in the harness"],
@@ -536,7 +541,7 @@ CHECKS = {
     "C13": {
         "jobs": c13_jobs,
         "bounds": {"quick": "shortcut filters this/last week, month, quarter, year, --today/--yesterday/--tomorrow and --after/--before for every reference date 2019-2022 against records on the first/last day of the reference period and their neighbours; sort of 1-3 records with symbolic dates (2019-2021, any month, day 1-28) written with either date separator (mixed notations), asc and desc; date clauses (--date, --since, --since+--until) on 1-2 records with symbolic dates; tag clauses (#x, #y, #x=v at record and entry level) x 5 entry types x all entry kinds on 1 record x 2 entries and 2 records x 1 entry",
-                   "thorough": "sort up to 4 records; 3 records for date clauses; all clause kinds combined on one record; 3 entries"},
+                   "thorough": "shortcuts for the reference years 0000-0005, 1998-2003, 9993-9998; sort up to 4 records; 3 records for date clauses; all clause kinds combined on one record; 3 entries"},
         "outside": "--period with a literal pattern through ApplyFilter (pattern -> period is C15; period -> since/until is the date-clause path covered here); sort of more than 12 records (pdqsort leaves its insertion-sort regime)",
         "stubs": [MODELS["sort"], MODELS["regexp"]],
         "assumptions": COMMON_ASSUME + ["dates are raw field triples (Filter and Sort only compare year/month/day)"],
@@ -551,7 +556,7 @@ CHECKS = {
     },
     "C20": {
         "jobs": c20_jobs,
-        "bounds": {"quick": "the emitted JSON TEXT (engine model of encoding/json driven by klog's struct declarations and tags, see stubs) of every generated document of 1-2 lines (valid and with injected rule violations; digits and summary bytes symbolic), compact and --pretty: parsed by a reference JSON reader written from RFC 8259 - well-formed, exactly one of records/errors non-null, every object has exactly the documented keys in order with the documented value kinds, per record date/summary/tags/should-total/entries in order with type, summary, tags, start/end notation and minute values, total = sum of entries, diff = total - should, range total = end - start; error objects equal to the terminal report (line, column, length, title, details); one record with a range (symbolic start hour x 4 ends x shifts), open range and signed duration with all digits symbolic",
+        "bounds": {"quick": "the emitted JSON TEXT (engine model of encoding/json driven by klog's struct declarations and tags, see stubs) of every generated document of 1-2 lines (valid and with injected rule violations; digits and summary bytes symbolic), compact and --pretty: parsed by a reference JSON reader written from RFC 8259 - well-formed, exactly one of records/errors non-null, every object has exactly the documented keys in order with the documented value kinds, per record date/summary/tags/should-total/entries in order with type, summary, tags, start/end notation and minute values, total = sum of entries, diff = total - should, range total = end - start; error objects equal to the terminal report (line, column, length, title, details); one record with a range (symbolic start hour x 4 ends x shifts), open range and signed duration with all digits symbolic; multi-line record and entry summaries (starting on the entry line or below it) with symbolic bytes and tags",
                    "thorough": "1-2 line documents in all 12 line-ending x indentation combinations; ranges with every hour 00-24 x minutes 00/01/59 on both ends x day shifts (3-line documents take > 45 min with the text model and are not registered)"},
         "outside": "bytes the generator does not put into summaries (its alphabet is ASCII; the string-escaping part of the model covers arbitrary bytes but is exercised with that alphabet only); filters and --sort in klog json (C13); documents longer than the bound",
         "stubs": [MODELS["json"], MODELS["regexp"], MODELS["fmt"], MODELS["sort"]],
